@@ -108,6 +108,9 @@ func (m *FlowMon) OnEvent(c *eng.Ctx, ms eng.MState, ev *eng.Event) eng.MState {
 			chk("C03.R3", "routing-decision", true, "")
 		}
 	case "call":
+		if isAtomicWrite(ev) {
+			chk("C03.R6", "effect", false, "running a flow updates state through "+eng.CalleeName(ev.Callee)+": the walk must keep no state between (or during) runs")
+		}
 		switch ev.Class {
 		case "ctx.Err":
 			if len(ev.Results) > 0 {
@@ -329,7 +332,7 @@ func (m *flowSmall) checkPrep(fn *ssa.Function, e *eng.Engine) {
 		for _, v := range rt.Vals {
 			got += v.Pretty() + " "
 		}
-		m.col.Check("C10.R1", "Flow.Prep:return", ok, rt.Pos, "a flow's prep must hand the parent's own store to exec unchanged, got ("+strings.TrimSpace(got)+")", nil)
+		m.col.Check("C10.R1,C03.R8", "Flow.Prep:return", ok, rt.Pos, "a flow's prep must hand the parent's own store to exec unchanged, got ("+strings.TrimSpace(got)+")", nil)
 	}
 }
 
@@ -371,9 +374,9 @@ func (m *flowSmall) checkNewFlow(fn *ssa.Function, e *eng.Engine) {
 			m.col.Check("C03.R7", "NewFlow:return", false, rt.Pos, "NewFlow does not return a freshly built Flow: "+rt.Vals[0].Pretty(), nil)
 			continue
 		}
-		m.col.Check("C03.R7", "NewFlow:start", obj.A[m.si] == start, rt.Pos, "NewFlow stores "+obj.A[m.si].Pretty()+" as start node, not its argument", nil)
+		m.col.Check("C03.R7,C10.R8", "NewFlow:start", obj.A[m.si] == start, rt.Pos, "NewFlow stores "+obj.A[m.si].Pretty()+" as start node, not its argument", nil)
 		tr := obj.A[m.ti]
-		m.col.Check("C03.R7", "NewFlow:transitions", tr.K == eng.KMake, rt.Pos, "NewFlow must start with a fresh, non-nil, empty connection table, got "+tr.Pretty(), nil)
+		m.col.Check("C03.R7,C10.R8", "NewFlow:transitions", tr.K == eng.KMake, rt.Pos, "NewFlow must start with a fresh, non-nil, empty connection table, got "+tr.Pretty(), nil)
 		// embedded BaseNode: defaults, no options (a flow is never re-run from its start by a retry)
 		okBase := false
 		why := "no embedded *BaseNode found"
@@ -475,10 +478,27 @@ func (m *effectMon) OnEvent(c *eng.Ctx, ms eng.MState, ev *eng.Event) eng.MState
 	switch ev.Kind {
 	case "store", "mapupdate", "mapdelete", "append", "clear", "send", "go":
 		m.col.Check(m.rule, m.what+":effect", false, ev.Pos, m.what+" writes shared state ("+ev.Kind+" "+descAddr(ev)+")", pathIf(true, c))
+	case "call":
+		if isAtomicWrite(ev) {
+			m.col.Check(m.rule, m.what+":effect", false, ev.Pos, m.what+" writes shared state ("+eng.CalleeName(ev.Callee)+")", pathIf(true, c))
+		}
 	case "return":
 		m.col.Check(m.rule, m.what+":effect", true, ev.Pos, "", nil)
 	}
 	return ms
+}
+
+// isAtomicWrite: a call of a sync/atomic operation other than a load (state kept
+// through an atomic is state all the same).
+func isAtomicWrite(ev *eng.Event) bool {
+	if ev.Callee == nil {
+		return false
+	}
+	n := eng.CalleeName(ev.Callee)
+	if !strings.Contains(n, "sync/atomic.") {
+		return false
+	}
+	return !strings.Contains(n[strings.LastIndex(n, ".")+1:], "Load")
 }
 
 // flowRunMon checks Flow.Run's single call of Run.
